@@ -99,6 +99,8 @@ func blockCandidates(m *ledger.Model, inst func(string) *coin.Transaction) []blo
 	add("valid["+validNames[0]+"]+1h", mkBlock(m, []coin.Transaction{t1}, 3600, idP.Sec, nil))
 	add("valid["+validNames[0]+"]+1e7s", mkBlock(m, []coin.Transaction{t1}, 10000000, idP.Sec, nil))
 	if len(valid) >= 2 {
+		// a block that leaves the first candidate's input alone (pending transactions on it stay valid and accrue hours)
+		add("valid["+validNames[1]+"]+1h", mkBlock(m, []coin.Transaction{valid[1]}, 3600, idP.Sec, nil))
 		add("valid2["+validNames[0]+","+validNames[1]+"]+10s", mkBlock(m, valid[:2], 10, idP.Sec, nil))
 		// same two transactions listed in the other order, header recomputed: still a valid block for a follower
 		add("valid2-swapped+10s", mkBlock(m, []coin.Transaction{valid[1], valid[0]}, 10, idP.Sec, nil))
